@@ -225,7 +225,7 @@ def files(m, n, r, mode, fmt, enc, lig, **kw):
     return ""
 
 
-def cmd(m, n, r, mode, dfmt, enc, **kw):
+def cmd(m, n, r, mode, dfmt, enc, lig=False, **kw):
     """`treetools grammar` with a grammar file as input: the written grammar equals the input grammar"""
     stubs.install()
     ip, lp = e1_get(kw, m, n)
@@ -233,7 +233,8 @@ def cmd(m, n, r, mode, dfmt, enc, **kw):
     e = ENCS[enc]
     grammaroutput.rcg(copy.deepcopy(g), copy.deepcopy(lex), "in/g", e)
     args = argparse.Namespace(src="in/g", dest="out/g", gramtype="treebank", markov=None, src_format="rcg", src_enc=e,
-                              src_opts=[], dest_format=["rcg", "pmcfg"][dfmt], dest_enc=e, dest_opts=[], verbose=False)
+                              src_opts=[], dest_format=["rcg", "pmcfg"][dfmt], dest_enc=e,
+                              dest_opts=["lex_in_grammar"] if lig else [], verbose=False)
     try:
         grammar.run(args)
     except SystemExit:
@@ -242,7 +243,12 @@ def cmd(m, n, r, mode, dfmt, enc, **kw):
     try:
         text = stubs.get("out/g.%s" % name, e)
         got_g = dec_pmcfg(text) if name == "pmcfg" else dec_rcg(text)
-        got_lex = dec_lex(stubs.get("out/g.lex", e))
+        if lig:
+            if "out/g.lex" in stubs.MemFS.files:
+                return "grammar command with --dest-opts lex_in_grammar still wrote a lexicon file"
+            got_g, got_lex = split_lexrules(got_g, set(lex))
+        else:
+            got_lex = dec_lex(stubs.get("out/g.lex", e))
     except (ValueError, KeyError, IndexError) as ex:
         return "output of the grammar command does not decode: %s: %s" % (type(ex).__name__, ex)
     if got_g != norm(g):
@@ -276,7 +282,7 @@ def conds(tier):
                        shard=["fmt", "mode"] + (["lig"] if m * n >= 8 else []) + ([] if q else ["enc"]),
                        skip=lambda sf: sf["fmt"] == 2 and sf.get("lig", False), timeout=600 if q else 3000, functions=FUNCS))
     for (m, n) in ([(2, 3)] if q else [(2, 3), (2, 4), (3, 4)]):
-        ps = e1_params(m, n) + [P("r", "int", 1, 3), P("mode", "int", 0, 4), P("dfmt", "int", 0, 2), P("enc", "int", 0, 3)]
+        ps = e1_params(m, n) + [P("r", "int", 1, 3), P("mode", "int", 0, 4), P("dfmt", "int", 0, 2), P("enc", "int", 0, 3), P("lig", "bool")]
         cs.append(Cond("cmd-m%d-n%d" % (m, n), "harness.c09:cmd", ps, fixed={"m": m, "n": n},
                        pre=[e1_wf_expr(m, n)] + (["enc == mode % 3 and r == 1"] if q else []), shard=["mode", "dfmt"],
                        timeout=600 if q else 3000, functions=FUNCS[5:6] + FUNCS[:4]))
